@@ -32,22 +32,24 @@ type DEvent struct {
 
 // Member is one go-dcp client instance (real code) plus its simulated consumer.
 type Member struct {
-	id         int
-	w          *World
-	cfg        *config.Dcp
-	bus        EventBus.Bus
-	agent      *gocbcore.Agent
-	meta       *gocbcore.Agent
-	dagent     *gocbcore.DCPAgent
-	client     couchbase.Client
-	d          dcp.Dcp
-	started    bool
-	ready      bool
-	closing    bool // Close() called
-	lastNotifT time.Duration
-	stopped    bool // Start() returned
-	crashed    bool
-	sess       int
+	id           int
+	w            *World
+	cfg          *config.Dcp
+	bus          EventBus.Bus
+	agent        *gocbcore.Agent
+	meta         *gocbcore.Agent
+	dagent       *gocbcore.DCPAgent
+	client       couchbase.Client
+	d            dcp.Dcp
+	started      bool
+	ready        bool
+	closing      bool // Close() called
+	lastNotifT   time.Duration
+	ackInConsume map[int]bool
+	trackPark    bool // an Ack issued from inside ConsumeEvent; park its next TrackOffset callback
+	stopped      bool // Start() returned
+	crashed      bool
+	sess         int
 
 	events        []*DEvent
 	unacked       map[int][]*DEvent // per vb, delivery order, not yet acked
@@ -150,15 +152,28 @@ func (m *Member) ConsumeEvent(ctx *models.ListenerContext) {
 	}
 	switch mode {
 	case "immediate":
+		m.setAckInConsume(vb, true)
 		m.ack(ev)
+		m.setAckInConsume(vb, false)
 	case "immediate-commit":
+		m.setAckInConsume(vb, true)
 		m.ack(ev)
+		m.setAckInConsume(vb, false)
 		w.jl(&journal.Ev{K: journal.KCall, M: m.id, Vb: -1, S: "CommitInside", ID: ev.id})
 		ctx.Commit()
 		w.jl(&journal.Ev{K: journal.KRet, M: m.id, Vb: -1, S: "CommitInside", ID: ev.id})
 	}
 	w.jl(&journal.Ev{K: journal.KConsEnd, M: m.id, Vb: vb, Seq: seq, ID: ev.id})
 	w.poke()
+}
+
+func (m *Member) setAckInConsume(vb int, on bool) {
+	m.w.mu.Lock()
+	if m.ackInConsume == nil {
+		m.ackInConsume = map[int]bool{}
+	}
+	m.ackInConsume[vb] = on
+	m.w.mu.Unlock()
 }
 
 // ack invokes the event's Ack (any goroutine; acks of one vBucket are issued one at a time).
@@ -188,6 +203,16 @@ func (m *Member) TrackOffset(vbID uint16, o *models.Offset) {
 		return
 	}
 	m.w.jl(&journal.Ev{K: journal.KTrack, M: m.id, Vb: int(vbID), Off: jOff(o)})
+	m.w.mu.Lock()
+	park := m.ackInConsume[int(vbID)] && m.trackPark
+	if park {
+		m.trackPark = false
+	}
+	m.w.mu.Unlock()
+	if park {
+		// a slow TrackOffset callback: the acknowledgement stays in the middle of setOffset while other goroutines run
+		m.w.yieldHook("consumer.trackoffset")
+	}
 }
 
 // ---- lifecycle callbacks (models.EventHandler) ----
